@@ -54,6 +54,22 @@ def gen_keys(ctx, n_mut):
                  "sk-ssh-ed25519@openssh.com AAAA x", "ssh-rsa-cert-v01@openssh.com AAAA x"]
     labels = ["ssh-dss", "ssh-ed25519", "ecdsa-sha2-nistp256", "ecdsa-sha2-nistp384", "ssh-rsa", "rsa-sha2-512", "ssh-rsa-cert-v01@openssh.com", ""]
     pems = ["RSA PUBLIC KEY", "PUBLIC KEY ", "CERTIFICATE", "PRIVATE KEY", "EC PUBLIC KEY", "public key", ""]
+    # uploads that hold more than one key: what is validated must be what is signed. First key weak / second strong and
+    # the reverse, in the shapes a key file can take (authorized_keys options, comments, blank lines, CRLF, two PEM
+    # blocks, two form values)
+    weak = ["rsa:1024:65537", "rsa:2048:3", "dsa", "ec:224", "rsa:2047:65537"]
+    strong = ["rsa:2048:65537", "ed25519", "ec:256", "rsa:4096:65537"]
+    variants = ["optab", "ab", "restrictab", "cab", "crlf", "tabab"]
+    multi = [("ssh", "rsa:1024:65537", "multi:optab:rsa_2048_65537"), ("ssh", "dsa", "multi:restrictab:ed25519"),
+             ("x509", "rsa:1024:65537", "multi:ab:rsa_2048_65537"), ("role", "rsa:2048:3", "multi:ab:ed25519")]
+    for p in PATHS:
+        for v in variants:
+            for a, b in ((rng.choice(weak), rng.choice(strong)), (rng.choice(strong), rng.choice(weak)), (rng.choice(strong), rng.choice(strong))):
+                if expected_desc(p, a) is None or expected_desc(p, b) is None or (p == "ssh" and "ec:224" in (a, b)):
+                    continue
+                multi.append((p, a, "multi:%s:%s" % (v, b.replace(":", "_"))))
+    ops += multi
+    n_mut += len(multi)
     while len(ops) < n_mut:
         p = rng.choice(PATHS)
         base = rng.choice(MUT_BASES)
@@ -186,7 +202,8 @@ def run(ctx):
             continue
         f = c11.kv(out)
         desc, status, same = f["desc"], f["status"], f["samekey"]
-        if mut == "-":
+        if mut == "-" or mut.startswith("multi:"):
+            # (multi-key uploads: the standard parsers yield the FIRST key of the upload)
             want = expected_desc(path, spec)
             if want != desc:
                 ctx.broken.append("generator: %r was meant to submit %s, the standard parser reports %s" % (op, want, desc))
@@ -200,7 +217,9 @@ def run(ctx):
             bump(hist["refusal_status"], status)
         mops.append("key %s %s %s" % (path, desc, f.get("re", "1")))
         mimpl.append(outcome)
-        jops.append("jkey %s %s %s %s" % (path, desc, status, same))
+        jops.append("jkey %s %s %s %s %s" % (path, desc, status, same, f.get("certkey", "-")))
+        if mut.startswith("multi:"):
+            bump(hist.setdefault("multi_key_uploads", {}), "%s:%s" % (path, outcome))
         jmeta.append(op)
         if outcome == "issue" or desc != "unparsable":
             nontrivial.add((path, desc, f.get("re", "1")))
